@@ -60,7 +60,8 @@ def cbOf (j : Json) : R CharCb :=
 def queryOf (_known : List CharId) (j : Json) : R Query := do
   let id : CharId := ⟨← getNat j "aid", ← getNat j "iid"⟩
   pure { id := id, hasValue := ← getBool j "hasValue", value := ← optStr j "value",
-         wr := ← getBool j "r", valid := ← optStr j "valid", cb := ← cbOf (← getObj j "cb") }
+         wr := ← getBool j "r", valid := ← optStr j "valid", cb := ← cbOf (← getObj j "cb"),
+         nulls := match j.getObjValAs? Bool "nulls" with | .ok b => b | .error _ => false }
 
 def batchOf (known : List CharId) (j : Json) : R Batch := do
   let qs ← (← getArr j "entries").toList.mapM (queryOf known)
